@@ -1,4 +1,5 @@
 import OpcuaModel.Model.SendRenew
+import OpcuaModel.Model.SendFloat
 import OpcuaModel.Model.SendSeqLive
 import OpcuaModel.Gen.RenewExpr
 import OpcuaModel.Gen.SendFacts
@@ -15,7 +16,7 @@ import OpcuaModel.Gen.SendFacts
   (c) server side: re-keying of the one instance object while others send.
 -/
 namespace Opcua.Props.C16
-open Opcua Opcua.SendRenew Opcua.SendSeq
+open Opcua Opcua.SendRenew Opcua.SendSeq Opcua.SendFloat
 
 /-- what the generator matched in `scheduleRenewal`:
     `time.Duration(float64(lifetime) * 0.75)` — no truncation beyond the nanosecond -/
@@ -39,6 +40,21 @@ theorem C16_window (L : Nat) (h : 1 ≤ L) : InWindow L := (C16_window_iff L).2 
 /-- the renewal is immediate only for a zero lifetime -/
 theorem C16_immediate_iff (L : Nat) : renewDelayNs L = 0 ↔ L = 0 := by
   rw [C16_delay_formula]; omega
+
+/-- THE FLOAT64 STEP IS EXACT: for every lifetime the protocol can carry (uint32
+    milliseconds, held as int64 nanoseconds) `int64(float64(lifetime) * 0.75)` —
+    exact conversion, IEEE-754 product rounded to nearest-even on 53 bits,
+    truncation — is exactly three quarters of the lifetime, i.e. the rational
+    model `renewDelayNs` used above is what the machine computes -/
+theorem C16_float_exact (L : Nat) (h : L < 4294967296) : f64mul075 (1000000 * L) = renewDelayNs L := by
+  rw [C16_delay_formula, f64_exact_div4 (1000000 * L) (by omega) (by omega)]
+  omega
+
+/-- for an arbitrary nanosecond lifetime below 2^54/3 ns (≈ 69 days) the float64
+    result is ⌊0.75·x⌋ or one more, and exactly ⌊0.75·x⌋ below 2^53/3 ns (≈ 34.7 days) -/
+theorem C16_float_bound (x : Nat) (h : 3 * x < 2 ^ 54) :
+    3 * x / 4 ≤ f64mul075 x ∧ f64mul075 x ≤ 3 * x / 4 + 1 ∧ (3 * x < 2 ^ 53 → f64mul075 x = 3 * x / 4) :=
+  ⟨(f64_bound x h).1, (f64_bound x h).2, f64_exact_small x⟩
 
 /-- the lifetimes that used to fail (whole-second truncation, repaired) -/
 theorem C16_former_witnesses :
